@@ -59,7 +59,8 @@ def render(file_lines, style):
         else:
             c = concrete_event(l['e'], style)
             rows.append('%r,%r,%r,%s,%r,%d,%s' % (c['lon'], c['lat'], c['mag'], c['tstr'], c['depth'], l['cid'], c['id']))
-    return '\n'.join(rows) + '\n'
+    # (the last row need not be followed by a line break)
+    return '\n'.join(rows) + ('' if (len(rows) + len(style)) % 3 == 1 and rows else '\n')
 
 
 def observe_catalog(cat):
